@@ -1,9 +1,11 @@
 """C14 — MessagePack codec: lossless, spec-conformant, rejects truncation"""
 import contracts.umsgpack  # noqa: registers the harnesses
+import contracts.msgpack_lemmas  # noqa
 
 INFO = {
     'not_decided': ['float payloads are moved, not interpreted (bit pattern identity)',
-                    'the Python 2 half of the module (_pack2, _unpackb2, _pack_oldspec_raw) is dead on this interpreter'],
+                    'the Python 2 half of the module (_pack2, _unpackb2, _pack_oldspec_raw) is dead on this interpreter',
+                    'compatibility mode (module global compatibility == True) is outside the contracts'],
     'stated_lemmas': [],
     'trusted': ['CPython int is mathematical; isinstance/None/bool dispatch executed by CPython itself'],
 }
